@@ -6,13 +6,13 @@ import Mathlib.Tactic
 /-!
 C08-T3 for the whole loop: whatever `runCapped` returns is (i) the list of composite trapezoid sums on
 `2^i` panels of the integrands, (ii) at a round `i > 3`, (iii) at which every integrand's
-`|T_i − T_{i−1}|` is below `3·atol`.  Nothing more follows from the stopping rule (see
+`|T_i − T_{i−1}|` is at most `3·atol`.  Nothing more follows from the stopping rule (see
 `OpdaProofs/QuadStop.lean` for the witness that it is not an error bound).
 -/
 namespace Opda.TrapLoop
 open Opda.Trap
 
-theorem stops_iff (i : ℕ) (err atol : ℝ) : stops i err atol = true ↔ 3 < i ∧ err < atol := by
+theorem stops_iff (i : ℕ) (err atol : ℝ) : stops i err atol = true ↔ 3 < i ∧ err ≤ atol := by
   unfold stops; simp
 
 theorem le_maxL (l : List ℝ) (x : ℝ) (hx : x ∈ l) : x ≤ maxL cast l := by
@@ -50,7 +50,7 @@ theorem runFrom_spec (gs : List (ℝ → ℝ)) (lo hi atol : ℝ) (fuel : ℕ) :
     ∀ (i : ℕ) (errs : List ℝ) (r : ℕ × List ℝ × List ℝ), 1 ≤ i →
       runFrom cast gs lo atol fuel i (gs.map fun g => iter cast g lo hi (i - 1)) errs = some r →
       i ≤ r.1 ∧ 3 < r.1 ∧ r.2.1 = gs.map (fun g => (iter cast g lo hi r.1).2) ∧
-        ∀ g ∈ gs, |(iter cast g lo hi r.1).2 - (iter cast g lo hi (r.1 - 1)).2| < 3 * atol := by
+        ∀ g ∈ gs, |(iter cast g lo hi r.1).2 - (iter cast g lo hi (r.1 - 1)).2| ≤ 3 * atol := by
   induction fuel with
   | zero => intro i errs r _ h; simp [runFrom] at h
   | succ fuel ih =>
@@ -82,9 +82,9 @@ theorem runFrom_spec (gs : List (ℝ → ℝ)) (lo hi atol : ℝ) (fuel : ℕ) :
       rw [absd_eq] at hle
       have h3' : (cast 3 : ℝ) = 3 := by simp [cast]
       rw [h3'] at hlt
-      have : maxL cast (gs.map fun g => absd (iter cast g lo hi i).2 (iter cast g lo hi (i - 1)).2) < 3 * atol := by
-        rw [div_lt_iff₀ (by norm_num : (0:ℝ) < 3)] at hlt; linarith
-      exact lt_of_le_of_lt hle this
+      have : maxL cast (gs.map fun g => absd (iter cast g lo hi i).2 (iter cast g lo hi (i - 1)).2) ≤ 3 * atol := by
+        rw [div_le_iff₀ (by norm_num : (0:ℝ) < 3)] at hlt; linarith
+      exact le_trans hle this
     · have hnext := ih (i + 1) _ r (by omega) (by simpa using h)
       exact ⟨by omega, hnext.2.1, hnext.2.2.1, hnext.2.2.2⟩
 
@@ -92,7 +92,7 @@ theorem runFrom_spec (gs : List (ℝ → ℝ)) (lo hi atol : ℝ) (fuel : ℕ) :
 theorem runCapped_spec (gs : List (ℝ → ℝ)) (lo hi atol : ℝ) (rounds : ℕ) (r : ℕ × List ℝ × List ℝ)
     (h : runCapped cast gs lo hi atol rounds = some r) :
     3 < r.1 ∧ r.2.1 = gs.map (fun g => Trap.trap g lo hi r.1) ∧
-      ∀ g ∈ gs, |Trap.trap g lo hi r.1 - Trap.trap g lo hi (r.1 - 1)| < 3 * atol := by
+      ∀ g ∈ gs, |Trap.trap g lo hi r.1 - Trap.trap g lo hi (r.1 - 1)| ≤ 3 * atol := by
   unfold runCapped at h
   have h0 : (gs.map fun g => (hi - lo, init cast g lo hi)) = gs.map fun g => iter cast g lo hi (1 - 1) := by
     apply List.map_congr_left; intro g _; simp [iter]
@@ -117,10 +117,10 @@ theorem maxL_nonneg (l : List ℝ) : 0 ≤ maxL cast l := by
       split_ifs with h <;> [exact h.le; exact le_rfl]
   simpa [cast] using gen l (cast 0)
 
-/-- with a non-positive tolerance the rule `err < atol` can never hold (`err ≥ 0`): the loop exhausts any
-round budget — this is what happens for the point mass `a = b, o = 0`, where `atol = 1e-6·(hi − lo) = 0`
-(finding F5: the code then allocates `2^i` points per round until memory runs out) -/
-theorem runFrom_none_of_atol_nonpos (gs : List (ℝ → ℝ)) (lo atol : ℝ) (hat : atol ≤ 0) (fuel : ℕ) :
+/-- with a **negative** tolerance the rule `err ≤ atol` can never hold (`err ≥ 0`): the loop exhausts any
+round budget (`IntegrationError`).  (Before fd4085d the test was strict and this already happened for
+`atol = 0`, i.e. for the point mass `a = b, o = 0` — finding F5.) -/
+theorem runFrom_none_of_atol_neg (gs : List (ℝ → ℝ)) (lo atol : ℝ) (hat : atol < 0) (fuel : ℕ) :
     ∀ (i : ℕ) (sts : List (ℝ × ℝ)) (errs : List ℝ), runFrom cast gs lo atol fuel i sts errs = none := by
   induction fuel with
   | zero => intro i sts errs; simp [runFrom]
@@ -138,5 +138,77 @@ theorem runFrom_none_of_atol_nonpos (gs : List (ℝ → ℝ)) (lo atol : ℝ) (h
       have : 0 ≤ maxL cast (List.zipWith (fun (s s' : ℝ × ℝ) => absd s'.2 s.2) sts
         (List.zipWith (fun g st => step cast g lo i st) gs sts)) / 3 := div_nonneg this (by norm_num)
       linarith
+
+theorem maxL_zero (l : List ℝ) (h : ∀ x ∈ l, x = 0) : maxL cast l = 0 := by
+  unfold maxL
+  have gen : ∀ (l : List ℝ), (∀ x ∈ l, x = 0) → l.foldl (fun m x => if m < x then x else m) (0:ℝ) = 0 := by
+    intro l
+    induction l with
+    | nil => intro _; rfl
+    | cons y t ih =>
+      intro h
+      have hy : y = 0 := h y (by simp)
+      simp only [List.foldl_cons, hy, lt_self_iff_false, if_false]
+      exact ih (fun x hx => h x (by simp [hx]))
+  simpa [cast] using gen l h
+
+/-- **stationary integrands stop at the first permitted round**: if every refinement leaves every
+trapezoid sum unchanged (`T_i = T_{i−1}` for `i = 1..4`) and `atol ≥ 0`, the loop returns at round 4
+whenever the budget allows 4 rounds.  (With `err < atol` and `atol = 0` it never returned: F5.) -/
+theorem runFrom_stationary (gs : List (ℝ → ℝ)) (lo hi atol : ℝ) (hat : 0 ≤ atol)
+    (hst : ∀ g ∈ gs, ∀ i : ℕ, 1 ≤ i → i ≤ 4 → (iter cast g lo hi i).2 = (iter cast g lo hi (i - 1)).2)
+    (fuel : ℕ) :
+    ∀ (i : ℕ) (errs : List ℝ), 1 ≤ i → i ≤ 4 → 4 < i + fuel →
+      ∃ errs', runFrom cast gs lo atol fuel i (gs.map fun g => iter cast g lo hi (i - 1)) errs
+        = some (4, gs.map (fun g => (iter cast g lo hi 4).2), errs') := by
+  induction fuel with
+  | zero => intro i errs _ h4 hf; omega
+  | succ fuel ih =>
+    intro i errs hi1 hi4 hf
+    have hsts : List.zipWith (fun g st => step cast g lo i st) gs (gs.map fun g => iter cast g lo hi (i - 1))
+        = gs.map fun g => iter cast g lo hi i := by
+      rw [List.zipWith_map_right, List.zipWith_self]
+      apply List.map_congr_left
+      intro g _
+      exact iter_succ_of_pos g lo hi i hi1
+    have herr : List.zipWith (fun (s s' : ℝ × ℝ) => absd s'.2 s.2) (gs.map fun g => iter cast g lo hi (i - 1))
+        (gs.map fun g => iter cast g lo hi i)
+        = gs.map fun g => absd (iter cast g lo hi i).2 (iter cast g lo hi (i - 1)).2 := by
+      rw [List.zipWith_map, List.zipWith_self]
+    have hzero : maxL cast (gs.map fun g => absd (iter cast g lo hi i).2 (iter cast g lo hi (i - 1)).2) = 0 := by
+      apply maxL_zero
+      intro x hx
+      obtain ⟨g, hg, rfl⟩ := List.mem_map.mp hx
+      rw [absd_eq, hst g hg i hi1 hi4]; simp
+    simp only [runFrom, hsts, herr, hzero]
+    by_cases h4 : i = 4
+    · subst h4
+      have : stops 4 ((0:ℝ) / cast 3) atol = true := by
+        rw [stops_iff]; exact ⟨by norm_num, by simpa using hat⟩
+      rw [if_pos this]
+      refine ⟨(0 / cast 3 :: errs).reverse, ?_⟩
+      simp only [List.map_map, Function.comp_def]
+    · have : ¬ (stops i ((0:ℝ) / cast 3) atol = true) := by
+        rw [stops_iff]; rintro ⟨h3, _⟩; omega
+      rw [if_neg this]
+      have := ih (i + 1) (((0:ℝ) / cast 3) :: errs) (by omega) (by omega) (by omega)
+      simpa using this
+
+theorem runCapped_stationary (gs : List (ℝ → ℝ)) (lo hi atol : ℝ) (hat : 0 ≤ atol)
+    (hst : ∀ g ∈ gs, ∀ i : ℕ, 1 ≤ i → i ≤ 4 → Trap.trap g lo hi i = Trap.trap g lo hi (i - 1))
+    (rounds : ℕ) (hr : 4 ≤ rounds) :
+    ∃ errs', runCapped cast gs lo hi atol rounds = some (4, gs.map (fun g => Trap.trap g lo hi 4), errs') := by
+  unfold runCapped
+  have h0 : (gs.map fun g => (hi - lo, init cast g lo hi)) = gs.map fun g => iter cast g lo hi (1 - 1) := by
+    apply List.map_congr_left; intro g _; simp [iter]
+  rw [h0]
+  obtain ⟨e, he⟩ := runFrom_stationary gs lo hi atol hat
+    (fun g hg i h1 h4 => by rw [iter_eq_trap, iter_eq_trap]; exact hst g hg i h1 h4) rounds 1 [] le_rfl (by norm_num)
+    (by omega)
+  refine ⟨e, ?_⟩
+  rw [he]
+  have : gs.map (fun g => (iter cast g lo hi 4).2) = gs.map (fun g => Trap.trap g lo hi 4) := by
+    apply List.map_congr_left; intro g _; exact iter_eq_trap g lo hi 4
+  rw [this]
 
 end Opda.TrapLoop
